@@ -145,7 +145,8 @@ func (g *sgen) stream(id int, faults bool) {
 	wbc := g.r.Pick(0, 1024, 2048)
 	proto := g.r.Pick(0, 0, 0, 1)
 	g.emit(fmt.Sprintf("newloop %s %d %d %d %s", []string{"lt", "et", "et"}[mode], chunk, g.rbc, wbc, []string{"unix", "tcp"}[proto]))
-	if g.r.Intn(4) == 0 { // the poller's overflow path (low-priority tasks are shunted to the second queue) within reach
+	lowThreshold := g.r.Intn(4) == 0
+	if lowThreshold { // the poller's overflow path (low-priority tasks are shunted to the second queue) within reach
 		g.emit(fmt.Sprintf("threshold %d", g.r.Pick(0, 1, 2, 3)))
 	}
 	open := "ret:none"
@@ -177,6 +178,21 @@ func (g *sgen) stream(id int, faults bool) {
 	}
 	g.emit("prog close " + closeProg)
 	g.connect()
+	if lowThreshold {
+		// with the overflow path within reach: asynchronous writes of both kinds, wake-ups and a late write, all
+		// issued by one goroutine while the loop sleeps - the writes must be carried out in issue order
+		for k := 0; k < 3+g.r.Intn(4); k++ {
+			switch g.r.Intn(4) {
+			case 0:
+				g.emit(fmt.Sprintf("async c1 writev %s,%s", g.payload(1+g.r.Intn(20)), g.payload(1+g.r.Intn(20))))
+			case 1:
+				g.emit("async c1 wake")
+			default:
+				g.emit(fmt.Sprintf("async c1 write %s", g.payload(1+g.r.Intn(20))))
+			}
+		}
+		g.emit("poll")
+	}
 	nops := 6 + g.r.Intn(30)
 	for i := 0; i < nops; i++ {
 		cid := g.pickLive()
@@ -296,13 +312,18 @@ func (g *sgen) stream(id int, faults bool) {
 
 func (g *sgen) udpCase(id int) {
 	fmt.Fprintf(&g.b, "case %d\n", id)
-	g.emit(fmt.Sprintf("newloop lt 0 %d 0 udp", g.r.Pick(0, 2048)))
+	rbc := g.r.Pick(0, 2048, 1024, 4096)
+	g.emit(fmt.Sprintf("newloop lt 0 %d 0 udp", rbc))
 	hops := []string{"ret:none", "next:-1;ret:none", "next:3;ret:none", "peek:-1;write:" + g.payload(5) + ";ret:none", "read:2;write:" + g.payload(1+g.r.Intn(100)) + ";ret:none",
 		"next:-1;write:;ret:none", "write:" + g.payload(g.r.Pick(0, 1, 1472, 3000)) + ";write:;ret:none", "write:" + g.payload(2) + ";write:" + g.payload(3) + ";ret:none"}
 	g.emit("prog traffic " + hops[g.r.Intn(len(hops))])
 	n := 2 + g.r.Intn(6)
 	for i := 0; i < n; i++ {
-		g.emit("udpsend " + g.payload(g.r.Pick(0, 1, 2, 100, 1472, 2000)))
+		size := g.r.Pick(0, 1, 2, 100, 1472, 2000)
+		if rbc > 0 && g.r.Intn(3) == 0 { // at the read-buffer size: the largest payload the property covers, and one below
+			size = g.r.Pick(rbc, rbc-1, rbc, rbc/2)
+		}
+		g.emit("udpsend " + g.payload(size))
 		if g.r.Intn(2) == 0 {
 			g.emit("poll")
 			g.emit("udprecv")
